@@ -92,7 +92,7 @@ theorem cacl_debt_ok {rs : List Rule} {f : Farmer} {δ : Int} {rw db : CoinList}
 theorem inv_stake {s s' : State} {sender id denom amt} (hi : Inv s) (hu : isModuleAcc sender = false)
     (h : stepStake s sender id denom amt = .ok s') : Inv s' := by
   have hst := stakes_stake hi.stakes h
-  obtain ⟨p, s1, s2, p1, rewards, debt, s3, _, hp, hstart, _, hden, h1, hupd, hc, h3, rfl⟩ := stepStake_ok h
+  obtain ⟨p, s1, s2, p1, rewards, debt, s3, _, _, hp, hstart, _, hden, h1, hupd, hc, h3, rfl⟩ := stepStake_ok h
   obtain ⟨une1, une2, _⟩ := user_ne hu
   have b1 := (sendAll_ok h1).1
   have ok := updatePool_ok hupd
@@ -230,7 +230,7 @@ theorem unstakePool_core {s s1 : State} {id : PoolId} {p p1 : Pool} {amt : Nat}
 theorem inv_unstake {s s' : State} {sender id denom amt} (hi : Inv s) (hu : isModuleAcc sender = false)
     (h : stepUnstake s sender id denom amt = .ok s') : Inv s' := by
   have hst := stakes_unstake hi.stakes h
-  obtain ⟨p, f, s1, p1, s2, rewards, debt, s3, _, hp, hden, hf0, hamt, hamt2, hbr, h2, hc, h3, rfl⟩ := stepUnstake_ok h
+  obtain ⟨p, f, s1, p1, s2, rewards, debt, s3, _, _, hp, hden, hf0, hamt, hamt2, hbr, h2, hc, h3, rfl⟩ := stepUnstake_ok h
   obtain ⟨une1, une2, _⟩ := user_ne hu
   obtain ⟨c1, hp1, _, hg1⟩ := unstakePool_core hi.core hp hamt2 hbr
   have b2 := (sendAll_ok h2).1
